@@ -461,7 +461,7 @@ fn any_dt_days(dlo: i64, dhi: i64) -> i64 {
     i
 }
 
-//@ unit c12_time_interval prop=C12,C02,C03 chunks=dtdays:1024/dtdays:16384 quickn=6 mem=3 timeout=900/1800 bound="every microsecond of the day x every day-time interval of either sign whose whole-day count is in the chunk: add/sub_interval_dt wrap modulo 24 h"
+//@ unit c12_time_interval prop=C12 tier=thorough chunks=dtdays:256 mem=3 timeout=2400 bound="every microsecond of the day x every day-time interval of either sign whose whole-day count is in the chunk: add/sub_interval_dt wrap modulo 24 h"
 fn c12_time_interval(dlo: i64, dhi: i64) {
     let t = any_tod();
     let i = any_dt_days(dlo, dhi);
@@ -475,7 +475,7 @@ fn c12_time_interval(dlo: i64, dhi: i64) {
     kani::cover!(i < 0 && t + i % USECS_DAY < 0);
 }
 
-//@ unit c12_time_from_interval prop=C12,C02,C03 chunks=dtdays:1024/dtdays:16384 quickn=6 mem=3 timeout=900/1800 bound="every day-time interval of either sign whose whole-day count is in the chunk: Time::from keeps the magnitude modulo one day"
+//@ unit c12_time_from_interval prop=C12,C02,C03 chunks=dtdays:1024/dtdays:4096 quickn=2 mem=3 timeout=900/1800 bound="every day-time interval of either sign whose whole-day count is in the chunk: Time::from keeps the magnitude modulo one day"
 fn c12_time_from_interval(dlo: i64, dhi: i64) {
     let i = any_dt_days(dlo, dhi);
     let tm = Time::from(mk_dt(i));
@@ -577,7 +577,7 @@ fn c13_ym() {
     assert!(IntervalYM::MAX.months() == YM_MAX && IntervalYM::MIN.months() == -YM_MAX && IntervalYM::ZERO.months() == 0);
 }
 
-//@ unit c13_dt_extract prop=C13,C02,C03 chunks=dtdays:1024/dtdays:16384 quickn=6 mem=3 timeout=900/1800 bound="every day-time interval of either sign whose whole-day count is in the chunk: extract, constructor inverse, negation, order"
+//@ unit c13_dt_extract prop=C13,C02,C03 chunks=dtdays:1024/dtdays:4096 quickn=2 mem=3 timeout=900/1800 bound="every day-time interval of either sign whose whole-day count is in the chunk: extract, constructor inverse, negation, order"
 fn c13_dt_extract(dlo: i64, dhi: i64) {
     let v = any_dt_days(dlo, dhi);
     let x = mk_dt(v);
@@ -615,7 +615,7 @@ fn dt_fields(v: i64, dlo: i64, dhi: i64) -> (i64, i64, i64, i64) {
     (d, h, mi, sus)
 }
 
-//@ unit c13_dt_acc_day prop=C13,C03 chunks=dtdays:1024/dtdays:16384 quickn=4 mem=3 timeout=900/1800 bound="every day-time interval of either sign whose whole-day count is in the chunk: signed day() accessor"
+//@ unit c13_dt_acc_day prop=C13,C03 chunks=dtdays:1024/dtdays:4096 quickn=2 mem=3 timeout=900/1800 bound="every day-time interval of either sign whose whole-day count is in the chunk: signed day() accessor"
 fn c13_dt_acc_day(dlo: i64, dhi: i64) {
     let v = any_dt_days(dlo, dhi);
     let (d, _, _, _) = dt_fields(v, dlo, dhi);
@@ -627,7 +627,7 @@ fn c13_dt_acc_day(dlo: i64, dhi: i64) {
     kani::cover!(v > 0);
 }
 
-//@ unit c13_dt_acc_hour prop=C13,C03 chunks=dtdays:1024/dtdays:16384 quickn=4 mem=3 timeout=900/1800 bound="as c13_dt_acc_day: signed hour() accessor"
+//@ unit c13_dt_acc_hour prop=C13,C03 chunks=dtdays:1024/dtdays:4096 quickn=2 mem=3 timeout=900/1800 bound="as c13_dt_acc_day: signed hour() accessor"
 fn c13_dt_acc_hour(dlo: i64, dhi: i64) {
     let v = any_dt_days(dlo, dhi);
     let (_, h, _, _) = dt_fields(v, dlo, dhi);
@@ -637,7 +637,7 @@ fn c13_dt_acc_hour(dlo: i64, dhi: i64) {
     kani::cover!(v > 0 && h == 0);
 }
 
-//@ unit c13_dt_acc_minute prop=C13,C03 chunks=dtdays:1024/dtdays:16384 quickn=4 mem=3 timeout=900/1800 bound="as c13_dt_acc_day: signed minute() accessor"
+//@ unit c13_dt_acc_minute prop=C13,C03 chunks=dtdays:1024/dtdays:4096 quickn=2 mem=3 timeout=900/1800 bound="as c13_dt_acc_day: signed minute() accessor"
 fn c13_dt_acc_minute(dlo: i64, dhi: i64) {
     let v = any_dt_days(dlo, dhi);
     let (_, _, mi, _) = dt_fields(v, dlo, dhi);
@@ -647,7 +647,7 @@ fn c13_dt_acc_minute(dlo: i64, dhi: i64) {
     kani::cover!(v > 0 && mi == 0);
 }
 
-//@ unit c13_dt_acc_second prop=C13,C03 chunks=dtdays:1024/dtdays:16384 quickn=4 mem=3 timeout=900/1800 bound="as c13_dt_acc_day: signed second() accessor (seconds with the microseconds as fraction)"
+//@ unit c13_dt_acc_second prop=C13,C03 chunks=dtdays:1024/dtdays:4096 quickn=2 mem=3 timeout=900/1800 bound="as c13_dt_acc_day: signed second() accessor (seconds with the microseconds as fraction)"
 fn c13_dt_acc_second(dlo: i64, dhi: i64) {
     let v = any_dt_days(dlo, dhi);
     let (_, _, _, sus) = dt_fields(v, dlo, dhi);
